@@ -562,7 +562,7 @@ def run(tier, seed):
     run_net_cases(s3, ocases, exact=False)
     suites.append(s3)
     from .. import extra
-    return list(suites) + [extra.suite_announce_all_accepted(tier, seed)]
+    return list(suites) + [extra.suite_announce_all_accepted(tier, seed), extra.suite_two_workers(tier, seed)]
 
 
 def replay(payload):
